@@ -325,9 +325,14 @@ def compare(tag, orig, imp, N, want_type=None, skip_initial=False):
         ok, c = _get(obs, tag + " get_cap_tensor(%d)" % k, lambda: imp.get_cap_tensor(k))
         if not ok:
             continue
+        oc = orig.get_cap_tensor(k)
+        if oc is None:
+            # the original has no cap for this step (caps never set/computed)
+            obs.append(Ob.holds(tag + " cap %d absent as in the original" % k, c is None))
+            continue
         obs.append(Ob.holds(tag + " cap %d present" % k, c is not None))
         if c is not None:
-            obs.append(Ob.eq(tag + " get_cap_tensor(%d)" % k, c, orig.get_cap_tensor(k)))
+            obs.append(Ob.eq(tag + " get_cap_tensor(%d)" % k, c, oc))
     ok, c = _get(obs, tag + " get_cap_tensor(len+1)", lambda: imp.get_cap_tensor(N + 1))
     if ok:
         obs.append(Ob.holds(tag + " get_cap_tensor(len+1) is None", c is None))
